@@ -113,6 +113,7 @@ def reference(A, b, lo, hi):
 def run_case(case):
     res = dict(stats={}, viol=[], nontrivial=[], inconclusive=[])
     st = res["stats"]
+    fresh = not case.get("cfg")
     cfg = case.get("cfg") or make_cfg(case["seed"], case["i"])
     case["cfg"] = cfg
     spec = cfg["prob"]
@@ -121,7 +122,7 @@ def run_case(case):
     lo = gen.arr(cfg["lower"], n, -np.inf)
     hi = gen.arr(cfg["upper"], n, np.inf)
     fstar, xstar, certified = reference(A, b, lo, hi)
-    if not case.get("cfg") and case["i"] % 2 == 1:
+    if fresh and case["i"] % 2 == 1:
         cfg["args"]["do_logging"] = False      # as most callers run it; nothing in this oracle needs the log
         st["runs_without_logging"] = 1
     run = gen.run_cfg(cfg, timeout=240)
